@@ -1,7 +1,7 @@
 (* Model/C10Run.v - case type and checker evaluated on harness-generated cases (C10).
    The checker runs Model/Retry.v's [run] / [backoff] (the functions the theorems are about)
    on the program the harness executed on the real client and compares with what it saw. *)
-From ReqV Require Export Lib.Bytes Model.Retry Model.RetryUpload Model.RetrySlices.
+From ReqV Require Export Lib.Bytes Model.Retry Model.RetryUpload Model.RetrySlices Model.RetryJar.
 From ReqV Require Import Gen.RetryClone.
 
 (* the harness's retry conditions and hooks, as data *)
@@ -76,7 +76,10 @@ Inductive c10_case :=
 | UploadCase (retryable chunked : bool) (cform rform : amap) (fs : list mfile)
              (dtab : list (bytes * bytes)) (o : list (list part * bool)) (failed upfront : bool)
 | GroupCase (cond_ops : list sop) (cond_views : list (list Z))
-            (hook_ops : list sop) (hook_views : list (list Z)).
+            (hook_ops : list sop) (hook_views : list (list Z))
+| CookieCase (caller : list cookie) (jar0 : jar) (resps : list (list cookie)) (o : list (list cookie)).
+      (* the caller's cookies, the client's jar before the first attempt, the cookies each
+         attempt's response sets, and the cookies every attempt carried *)
       (* a multipart program: retries enabled (a retry option with count <> 0)?, forced chunked
          encoding?, client-level and request-level form data, file sources, DetectContentType as
          a table; per attempt the parts seen on the wire and whether the body was read to its
@@ -144,4 +147,6 @@ Definition c10_check (cs : c10_case) : bool :=
   | GroupCase cops cviews hops hviews =>
       list_eqb (list_eqb Z.eqb) (views (wrun go_grow clone_conditions cops world0)) cviews &&
       list_eqb (list_eqb Z.eqb) (views (wrun go_grow clone_hooks hops world0)) hviews
+  | CookieCase caller jar0 resps o =>
+      list_eqb (list_eqb pair_eqb) (attempt_cookies caller jar0 resps) o
   end.
